@@ -104,6 +104,9 @@ func run(m *ir.Module, o op) (res string, p *lx.Panic) {
 			}
 			if o.Kind == "Ident" {
 				res = f.Ident() + " " + f.Type().String()
+				for _, p := range f.Params { // the identifiers of the parameters (of declarations, too)
+					res += " " + p.Ident()
+				}
 				for _, g := range m.Globals {
 					res += " " + g.Ident()
 				}
@@ -476,6 +479,11 @@ func TestReplay(t *testing.T) {
 	for _, printed := range []bool{false, true} {
 		pl := plan{Printed: printed}
 		for g := 0; g < 8; g++ {
+			if g%2 == 1 {
+				// identifier queries first, while the others are in their first print
+				pl.Ops = append(pl.Ops, []op{{Kind: "Ident", F: g / 2}, {Kind: "Ident", F: g/2 + 1}, {Kind: "Type", F: g}, {Kind: "String"}})
+				continue
+			}
 			pl.Ops = append(pl.Ops, []op{{Kind: "String"}, {Kind: "Func", F: g}, {Kind: "Block", F: g, B: g}, {Kind: "WriteTo"}, {Kind: "Inst", F: g, B: 1, I: g}})
 		}
 		for rep := 0; rep < 20; rep++ {
